@@ -269,7 +269,7 @@ func solve(script string, timeoutS int, seed int, useCvc5 bool) SolveResult {
 			cmd.Stdout = &out
 			cmd.Stderr = &out
 			cmd.Run()
-			txt := out.String()
+			txt := stripWarnings(out.String())
 			first := strings.TrimSpace(strings.SplitN(txt, "\n", 2)[0])
 			v := VUnknown
 			switch first {
@@ -338,6 +338,22 @@ func solve(script string, timeoutS int, seed int, useCvc5 bool) SolveResult {
 		}
 	}
 	return res
+}
+
+// stripWarnings drops the solver's WARNING lines (for instance about a pattern that contains an
+// expanded definition), which precede the verdict.
+func stripWarnings(out string) string {
+	if !strings.Contains(out, "WARNING") {
+		return out
+	}
+	var keep []string
+	for _, l := range strings.Split(out, "\n") {
+		if strings.HasPrefix(strings.TrimSpace(l), "WARNING") {
+			continue
+		}
+		keep = append(keep, l)
+	}
+	return strings.Join(keep, "\n")
 }
 
 func truncate(s string, n int) string {
